@@ -63,7 +63,7 @@ def hardcoded_rdf_type(ctx, clause):
             while cur in pm:
                 cur = pm[cur]
                 if isinstance(cur, ast.If):
-                    t = norm(cur.test)
+                    t = f.key(cur.test)           # named constants print as their values
                     if f.name == "_decide_instantiation_property" and ("== None" in t or "is None" in t):
                         ok, why = True, "None-fallback of the configured property"
                     if t in ("token == 'a'", "raw_elem in _RDF_TYPE_CONTRACTED"):
